@@ -11,6 +11,7 @@
 (*   fam 3  immediates of le/be/xadd/call, call kinds                      *)
 (*   fam 4  length classes up to one instruction past the 1,000,000 limit  *)
 (*   fam 5  far local calls and jumps in long programs                     *)
+(*   fam 7  the same jump / call instruction twice in a row               *)
 (*   fam 6  the second slot of a wide load: only its opcode byte (0) is    *)
 (*          constrained, its register byte, offset and immediate are free  *)
 (***************************************************************************)
@@ -60,7 +61,7 @@ Fam2Of(o) ==
 \* ---- fam 3: immediates and call kinds
 Fam3 ==
   { Cand(<<3, o, m, 0>>, Flat(<< I(o, 1, 0, 0, m), Exit >>), 0) :
-      o \in {LE, BE}, m \in {0, 8, 15, 16, 17, 32, 33, 64, 65, 128, -16, -64, MinI32} } \cup
+      o \in {LE, BE}, m \in {0, 8, 15, 16, 17, 24, 32, 33, 40, 48, 56, 63, 64, 65, 80, 96, 128, -16, -64, MinI32} } \cup
   { Cand(<<3, o, m, 0>>, Flat(<< I(o, 10, 1, -8, m), Exit >>), 0) :
       o \in {XADD_W, XADD_DW}, m \in {0, 1, -1, 16, MinI32} } \cup
   { Cand(<<3, CALL, k, m>>, Flat(<< I(CALL, 0, k, 0, m), Exit >>), 0) :
@@ -84,9 +85,19 @@ Fam6 ==
   { Cand(<<6, o2, rb, f>>, Flat(<< I(LDDW, 1, 0, 0, 5), I(o2, rb % 16, rb \div 16, f, m), Exit >>), 0) :
       o2 \in {0, 1, 24, 149, 255}, rb \in {0, 1, 16, 160, 171, 187, 255}, f \in {0, 1, -1, -32768}, m \in {0, -1} }
 
+\* ---- fam 7: the same jump / local call twice in a row: the displacement that is fine for the first
+\* copy leaves the program (d = 1) or lands on a second slot (d = 2) for the copy one slot further on
+Fam7Of(o) ==
+  IF o \in JumpOps
+  THEN { Cand(<<7, o, d, 0>>, Flat(<< I(o, 0, 1, d, 1), I(o, 0, 1, d, 1), Exit >>), 0) : d \in {0, 1} } \cup
+       { Cand(<<7, o, 2, 1>>, Flat(<< I(o, 0, 1, 2, 1), I(o, 0, 1, 2, 1), Lddw1, Zero, Exit >>), 0) }
+  ELSE IF o = CALL
+  THEN { Cand(<<7, o, d, 0>>, Flat(<< I(CALL, 0, 1, 0, d), I(CALL, 0, 1, 0, d), Exit >>), 0) : d \in {0, 1} }
+  ELSE {}
+
 \* one initial state per opcode byte (families 1, 2) or per small family, so that the bulk of
 \* the enumeration happens in Next and is shared by TLC's workers
-Seeds == (IF 1 \in Fams \/ 2 \in Fams THEN { <<"op", o>> : o \in 0..255 } ELSE {})
+Seeds == (IF 1 \in Fams \/ 2 \in Fams \/ 7 \in Fams THEN { <<"op", o>> : o \in 0..255 } ELSE {})
          \cup (IF 3 \in Fams THEN { <<"f3", 0>> } ELSE {})
          \cup (IF 4 \in Fams THEN { <<"f4", 0>> } ELSE {})
          \cup (IF 5 \in Fams THEN { <<"f5", 0>> } ELSE {})
@@ -94,6 +105,7 @@ Seeds == (IF 1 \in Fams \/ 2 \in Fams THEN { <<"op", o>> : o \in 0..255 } ELSE {
 
 CandsOf(s) ==
   IF s[1] = "op" THEN (IF 1 \in Fams THEN Fam1Of(s[2]) ELSE {}) \cup (IF 2 \in Fams THEN Fam2Of(s[2]) ELSE {})
+                      \cup (IF 7 \in Fams THEN Fam7Of(s[2]) ELSE {})
   ELSE IF s[1] = "f3" THEN Fam3 ELSE IF s[1] = "f4" THEN Fam4 ELSE IF s[1] = "f5" THEN Fam5 ELSE Fam6
 
 Init == \E s \in Seeds : cand = s /\ phase = "seed" /\ verdict = FALSE
